@@ -7,7 +7,8 @@ package main
 //	      interface-typed field also of the dynamic type held there
 //	tcmp  reflect.TypeOf(v).Comparable()
 //	cmp   Go == on two values of this ty is safe: tcmp, unless the value holds a slice or map in an
-//	      interface-typed field/element (then == panics: finding C12-iface-field-panic, model flag `i`)
+//	      interface-typed field/element (then == panics; before 6d0c31a sameValue let them through: finding
+//	      C12-iface-field-panic, model flag `i`)
 //	id    position of the first table value of the same type that is Go-== to it (own position for an
 //	      uncomparable type)
 //	core  what jp's Normalize switch is EXPECTED to turn it into: decided here from the documented list of
